@@ -260,6 +260,12 @@ func OASRuleFields() []*Field {
 	add(oasRuleField("s_zero", "string", &Rules{MinLen: U(0), MaxLen: U(0)}))
 	add(oasRuleField("s_len", "string", &Rules{Len: U(3)}))
 	add(oasRuleField("s_pattern", "string", &Rules{Pattern: Str("^[a-z]+[0-9]$")}))
+	// patterns of the RE2/ECMA-262 common subset whose TEXT is delicate: escaped backslashes followed by a letter that
+	// is an escape of its own (\\A \\z \\b \\d), escaped metacharacters, quotes, classes, bounded repetition, groups
+	for i, pat := range []string{`^[A-Z]:\\Apps\\[a-z]+$`, `^\\\\nas\\zips\\[0-9]+$`, `^a\.b\\d$`, `^\d{2,3}$`, `^(?:x|y)+$`, `^[^\s"']+$`, `^\$[0-9]+\.[0-9]{2}$`, `^/api/v[0-9]+$`,
+		`^\\b\\B$`, `^[\w.+-]+@[\w-]+$`, `^a{0}b?$`, `^\(\)\[\]\{\}$`} {
+		add(oasRuleField(fmt.Sprintf("s_pat%d", i), "string", &Rules{Pattern: Str(pat)}))
+	}
 	add(oasRuleField("s_in", "string", &Rules{StrIn: []string{"red", "green", "dark-blue"}}))
 	add(oasRuleField("s_not_in", "string", &Rules{StrNotIn: []string{"root", "admin"}}))
 	add(oasRuleField("s_const", "string", &Rules{StrConst: Str("fixed")}))
